@@ -418,3 +418,14 @@ Theorem c15_format_stale_string_refuted : forall (tok : Type) (t : tok),
   get_format_c tok (frun tok false (fun _ => f_new tok) l 1) = None.
 Proof. exact stale_string_refuted. Qed.
 Print Assumptions c15_format_stale_string_refuted.
+
+(* Session 5, second part: the machine that the extracted driver executes over the FOUR object
+   slots of harness/data_harness.c (TwoObjModel.kstep: container operations by DataModel.step,
+   quirks and DD2 variant as parameters) is the machine of the theorems above for the code as it is
+   and callers that supply vectors of the documented length; the correspondence now converts among
+   all four objects, so c15_two_object_machine_embeds is no longer the only bridge *)
+Theorem c15_executed_machine_is_nstep : forall (V : Type) (vzero vdef : V) conv s m,
+  (forall i o, m = NOn V i o -> short_vector V (s i) o = false) ->
+  kstep V vzero vdef conv fixed true s m = nstep V vzero vdef conv s m.
+Proof. exact kstep_is_nstep. Qed.
+Print Assumptions c15_executed_machine_is_nstep.
